@@ -571,6 +571,11 @@ class Machine:
             return
         if isinstance(t, ast.Subscript):
             base = self.ev(t.value, env, fi)
+            full_slice = isinstance(t.slice, ast.Slice) and t.slice.lower is None and t.slice.upper is None and t.slice.step is None
+            if isinstance(base, Ref) and base.comp is not None and full_slice and base.obj == "atoms":
+                # x[:] = v  overwrites the whole live array in place: same effect as the property setter
+                self.write_comp(base.obj, base.comp, self.value_of(v), f"{base.obj}.{base.comp}[:] = …", st, fi, raw=True, src=v)
+                return
             if isinstance(base, Ref) and base.comp is not None:
                 # in-place partial write into live storage
                 self.heap[base.obj][base.comp] = ("new", self.fresh("w"))
